@@ -71,10 +71,62 @@ def _retrieve(self, assignment=None, cache=None, key_idx=0, result=None, from_in
         TRACE['mixed'] = True
     if cache is None:
         TRACE['retrievals'] += 1
+        if from_index:
+            _note_read(self)
     return _orig_retrieve(self, assignment, cache, key_idx, result, from_index)
 
 
 _cd.IndexedCache.retrieve = _retrieve
+
+# ---- provenance of cache contents (no source hook): which evaluation (epoch) filled a cache, and was a cache that an evaluation
+# which did NOT run to completion had filled ever read afterwards?  (The library drops the operator caches of such an evaluation;
+# a cached row loss is attributed to known finding C05-wildcard-retrieval only if this never happened.)
+EPOCH = {'n': 0, 'incomplete': set(), 'served_incomplete': False}
+_orig_insert, _orig_clear = _cd.IndexedCache.insert, _cd.IndexedCache.clear
+
+
+def _insert(self, assignment, output, index=True):
+    self.__dict__.setdefault('_verif_epochs_', set()).add(EPOCH['n'])
+    return _orig_insert(self, assignment, output, index)
+
+
+def _clear(self):
+    self.__dict__['_verif_epochs_'] = set()
+    return _orig_clear(self)
+
+
+_cd.IndexedCache.insert, _cd.IndexedCache.clear = _insert, _clear
+
+
+def _note_read(cache):
+    if cache.__dict__.get('_verif_epochs_', set()) & EPOCH['incomplete']:
+        EPOCH['served_incomplete'] = True
+
+
+def _ref_retrieve(self, assignment=None, cache=None, key_idx=0, result=None, from_index=True):
+    """REFERENCE retrieval used only as a control for known finding C05-wildcard-retrieval: every stored entry compatible with the
+    lookup (a stored key is compatible if it is the wildcard, or the lookup leaves it open, or the values are equal)"""
+    if not from_index:
+        yield from _orig_retrieve(self, assignment, cache, key_idx, result, from_index)
+        return
+    keys = self.keys
+    assignment = assignment or {}
+
+    def walk(node, idx, path):
+        if idx == len(keys):
+            yield path, node
+            return
+        if not isinstance(node, _cd.CacheDict):
+            return
+        for k, v in list(node.items()):
+            yield from walk(v, idx + 1, path + [k])
+    for path, leaf in walk(self.cache, 0, []):
+        if all(p is _All or key not in assignment or assignment[key] == p for key, p in zip(keys, path)):
+            res = dict(assignment)
+            for key, p in zip(keys, path):
+                if p is not _All and key not in res:
+                    res[key] = p
+            yield res, leaf
 
 
 def _alarm(*a):
@@ -126,6 +178,15 @@ class Builder:
         k = t[0]
         if k == 'lit':
             return pyval(t[1], self.objs)
+        if k == 'subq':
+            # t[3] (a term over variable t[1]) read off the sub-query an(entity(variable, cond)); the quantifier object is used here only
+            sub = an(entity(self.vars[t[1]], self.cond(t[2])))
+            saved = self.vars[t[1]]
+            self.vars[t[1]] = sub
+            try:
+                return self.term(t[3], fresh=True)
+            finally:
+                self.vars[t[1]] = saved
         if k == 'var':
             return self.vars[t[1]]
         if k == 'map':
@@ -156,6 +217,21 @@ class Builder:
         raise ValueError(t)
 
     def cond(self, c, negated=False):
+        # with share_conds a (not negated) disjunction / conjunction OBJECT built for one query of the pool is used by the next
+        # query that contains the same sub-condition (once per query)
+        if self.memo is not None and self.case.get('share_conds') and not negated and c[0] in ('or', 'and'):
+            key = 'C' + json.dumps(c)
+            if key in self.memo and key not in self.used:
+                self.used.add(key)
+                return self.memo[key]
+            r = self._cond(c, negated)
+            if key not in self.memo:
+                self.memo[key] = r
+                self.used.add(key)
+            return r
+        return self._cond(c, negated)
+
+    def _cond(self, c, negated=False):
         k = c[0]
         if k == 'cmp':
             return PYOPS[c[1]](self.term(c[2]), self.term(c[3]))
@@ -258,8 +334,10 @@ def run(case):
     if 'variant' in case:
         return dict(orig=run(case['orig']), variant=run(case['variant']))
     res = {}
-    for cfg in ('off', 'on'):
+    for cfg in ('off', 'on', 'onref'):
         (disable_caching if cfg == 'off' else enable_caching)()
+        # 'onref': caching enabled with the REFERENCE retrieval - a control run, only read when 'on' disagrees (known finding)
+        _cd.IndexedCache.retrieve = _ref_retrieve if cfg == 'onref' else _retrieve
         objs = make_heap(case)
         LIST_MODE[0] = bool(case.get('list_items'))
 
@@ -283,6 +361,7 @@ def run(case):
             res['mixed_level_retrieval'] = TRACE['mixed']
             res['cache_retrievals'] = TRACE['retrievals']
     enable_caching()
+    _cd.IndexedCache.retrieve = _retrieve
     return res
 
 
